@@ -1,5 +1,6 @@
 import Driver.Sexp
 import Pcore.Model.Ser
+import Pcore.Model.SerSpec
 /-! Driver op for C10:  `ser <opts> <caps> <val>` (syntax in harness/c10/c10.go). -/
 namespace C10
 open Sx Pcore.Ser
@@ -144,6 +145,7 @@ def exec : List Sexp → String
     match optsOf o, capsOf c, parseV { defined := [], opened := [] } v with
     | some opts, some caps, some (val, _) =>
       if !val.dispOk (mkCfg opts caps) then "unmodelled"
+      else if !sharedB (mkCfg opts caps) val then "incoherent-sharing"     -- hypothesis `Shared` of the theorems
       else
         let ev := serialize opts caps val
         let back := match deserialize ev with
